@@ -115,3 +115,26 @@ Lemma scan_directives_spec o nm inp :
     | Err e => Err e | Panic => Panic | OutOfFuel => OutOfFuel
     end.
 Proof. reflexivity. Qed.
+
+(** the comment-group rule for a line comment (the form of the header directives): the group is
+    emptied exactly when the byte after the comment's own newline - white space skipped or not -
+    is another newline, i.e. an empty line follows. *)
+Lemma has_prefix_nlnl_nl x : has_prefix x NLNL = true -> has_prefix x NL = true.
+Proof.
+  destruct x as [|a [|b t]]; simpl; try discriminate; intros H; apply andb_true_iff in H as [H _];
+    rewrite H; reflexivity.
+Qed.
+
+Lemma line_comment_rule o body sp rest cs :
+  index_of (body ++ NL) NL = Some (length body) -> Spaces sp -> starts_space rest = false ->
+  SegC o (([45;45]%N ++ body ++ NL) ++ sp) rest cs
+       (if has_prefix (sp ++ rest) NL then [] else cs ++ [[45;45]%N ++ body ++ NL]).
+Proof.
+  intros Hi Hsp Hr.
+  pose proof (SC_comment o [45;45]%N body NL sp rest cs Hi (or_introl (conj eq_refl eq_refl)) Hsp Hr) as H.
+  assert (blank_after NL (sp ++ rest) = has_prefix (sp ++ rest) NL) as E.
+  { unfold blank_after. destruct (has_prefix (sp ++ rest) NLNL) eqn:E1.
+    - apply has_prefix_nlnl_nl in E1. rewrite E1. reflexivity.
+    - simpl. destruct (has_prefix (sp ++ rest) NL); reflexivity. }
+  rewrite E in H. exact H.
+Qed.
